@@ -21,6 +21,8 @@ static inline std::string pat_str(const std::vector<Slot>& p) {
 // value codes used in plans -> 256-bit values
 static inline Bn value_of_code(const std::string& c) {
     const Bn& r = K().r;
+    if (c.size() > 2 && c.compare(c.size() - 2, 2, "+r") == 0 && c != "2r+r") return Bn::mod(Bn::add(value_of_code(c.substr(0, c.size() - 2)), r), K().two256);
+    if (c.compare(0, 4, "glv:") == 0) { int d0 = 1, d1 = 1, t = 0, sg = 0; unsigned long long es = 0; sscanf(c.c_str() + 4, "%d:%d:%d:%d:%llu", &d0, &d1, &t, &sg, &es); return glv_scalar(d0, d1, t, sg, es); }
     if (c == "0") return Bn(0); if (c == "1") return Bn(1); if (c == "2") return Bn(2); if (c == "3") return Bn(3);
     if (c == "r-1") return Bn::sub(r, Bn(1)); if (c == "r") return r; if (c == "r+1") return Bn::add(r, Bn(1));
     if (c == "2r") return Bn::add(r, r); if (c == "2r+1") return Bn::add(Bn::add(r, r), Bn(1));
@@ -33,7 +35,13 @@ static inline Bn value_of_code(const std::string& c) {
     if (c.size() > 1 && c[0] == 'x') { std::vector<uint8_t> b = unhex(c.substr(1)); b.resize(32); return Bn::from_le(b.data(), 32); }
     return Bn((uint64_t) strtoull(c.c_str(), nullptr, 10));
 }
-static inline const std::vector<std::string>& value_codes() { static const std::vector<std::string> v = {"0", "1", "2", "3", "r-1", "r", "r+1", "2r", "2r+1", "max", "2^255", "2^64", "2^64-1", "2^128", "2^128+5", "2^127+3", "2^192+7", "2^130+9", "2^232", "2^32", "2^96+1"}; return v; }
+// a random member of the GLV-collision family (see glv_scalar), biased towards d0 == d1 and small t
+template <typename RNG> static inline std::string glv_code(RNG& r) {
+    static const int ds[] = {1, 3, 5, 7}; int d0 = ds[r.below(4)], d1 = r.chance(2, 3) ? d0 : ds[r.below(4)];
+    int t = r.chance(1, 2) ? 0 : r.chance(1, 2) ? r.range(1, 8) : r.range(9, 120);
+    return strf("glv:%d:%d:%d:%d:%llu%s", d0, d1, t, (int) r.below(4), (unsigned long long) (r.chance(1, 2) ? 0 : 1 + r.below(1000)), r.chance(1, 4) ? "+r" : "");
+}
+static inline const std::vector<std::string>& value_codes() { static const std::vector<std::string> v = {"0", "1", "2", "3", "r-1", "r", "r+1", "2r", "2r+1", "max", "2^255", "2^64", "2^64-1", "2^128", "2^128+5", "2^127+3", "2^192+7", "2^130+9", "2^232", "2^32", "2^96+1", "glv:1:1:0:2:0", "glv:1:1:0:1:0", "glv:3:3:0:2:0", "glv:1:1:1:2:0", "glv:5:5:3:1:9", "glv:1:1:0:2:0+r"}; return v; }
 
 // Thin typed wrappers (C++ view, reference paths) used by the models.
 struct W {
